@@ -12,7 +12,7 @@
 // model); it records every ExecuteBlock / UpdateCommitmentState / GetExecutedBlockMetadata
 // request together with its answer.  One trace line per op:
 //
-//   executor reset exec <soft|firm|both> <S> <R> <firm0> <soft0> <cel0> <lookahead> => ok | - | <state>
+//   executor reset exec <soft|firm|both> <S> <R> <firm0> <soft0> <cel0> <lookahead> [<lie>] => ok | - | <state>
 //   executor soft <h>                        => <ok|drop|err:kind> | <rpcs> | <state>
 //   executor firm <h> <celestia_h>           => …
 //   executor loop <h/c,h/c…|-> <h,h,…|->     => <ok|err:kind> | <rpcs> | <state> | left=<f>,<s>
@@ -164,6 +164,10 @@ struct Cfg {
     soft0: u64,
     cel0: u64,
     lookahead: u64,
+    /// fault injection: 0 = honest rollup; k > 0 = the k-th answered ExecuteBlock carries a block
+    /// number that violates the contract, and GetExecutedBlockMetadata answers with the block
+    /// below the requested one
+    lie: u64,
 }
 
 struct Fake {
@@ -174,6 +178,7 @@ struct Fake {
     soft: Blk,
     cel: u64,
     next_id: u64,
+    execs: u64,
     log: Vec<String>,
 }
 
@@ -198,6 +203,7 @@ impl Fake {
             soft: blocks[blocks.len() - 1].clone(),
             cel: cfg.cel0,
             next_id: span + 2,
+            execs: 0,
             blocks,
             cfg,
             log: vec![],
@@ -229,13 +235,15 @@ impl Fake {
         } else if parent != self.soft.id {
             Err("not-head")
         } else {
+            let lying = self.cfg.lie != 0 && self.execs + 1 == self.cfg.lie;
             let b = Blk {
-                number: self.soft.number + 1,
+                number: self.soft.number + if lying { 2 } else { 1 },
                 id: self.next_id,
                 parent,
                 seq,
             };
             self.next_id += 1;
+            self.execs += 1;
             self.blocks.push(b.clone());
             Ok(b)
         };
@@ -281,7 +289,8 @@ impl Fake {
             Err("no-such-block")
         } else {
             // newest block with that number
-            self.blocks.iter().rev().find(|b| b.number == n).cloned().ok_or("no-such-block")
+            let wanted = if self.cfg.lie != 0 { n.saturating_sub(1) } else { n };
+            self.blocks.iter().rev().find(|b| b.number == wanted).cloned().ok_or("no-such-block")
         };
         self.log.push(format!(
             "G,{n},{}",
@@ -686,7 +695,12 @@ fn exec(env: &mut Env, sess: &mut Session, op: &str) -> String {
                 soft0: t[6].parse().unwrap(),
                 cel0: t[7].parse().unwrap(),
                 lookahead: t[8].parse().unwrap(),
+                lie: t.get(9).map(|x| x.parse().unwrap()).unwrap_or(0),
             };
+            if env.timeouts >= MAX_TIMEOUTS {
+                *sess = Session::Dead;
+                return "err:aborted".to_string();
+            }
             match new_exec_session(env, cfg) {
                 Ok(s) => {
                     let _ = take_log(env);
@@ -971,9 +985,12 @@ fn gen_session(rng: &mut Rng, ops: &mut Vec<String>, idx: u64, thorough: bool) {
             _ => {}
         }
     }
+    // a rollup that violates the contract once (correspondence only: outside the theorems)
+    let lie = if !refused && rng.chance(6) { rng.range(1, 4) } else { 0 };
     ops.push(format!(
-        "reset exec {} {s} {r} {firm0} {soft0} {cel0} {lookahead}",
-        mode_name(mode)
+        "reset exec {} {s} {r} {firm0} {soft0} {cel0} {lookahead}{}",
+        mode_name(mode),
+        if lie != 0 { format!(" {lie}") } else { String::new() }
     ));
     if refused {
         return;
@@ -1164,6 +1181,7 @@ fn driver() {
             soft0: 0,
             cel0: 1,
             lookahead: 1,
+            lie: 0,
         },
         0,
     )));
